@@ -32,7 +32,7 @@ def adv_ns(o):
     return o["d"] * NS + o.get("ns", 0)
 
 
-def go_run(ctx, moddir, pkg, files, run, cases, mode, real_timeout, extra_files=None):
+def go_run(ctx, moddir, pkg, files, run, cases, mode, real_timeout, extra_files=None, extra_overlay=None):
     """like lib.Ctx.go_inpkg, plus what the fake clock needs: -tags faketime, -ldflags=-checklinkname=0 (the driver
     moves runtime.faketime itself), no test alarm (it would run on the fake clock), a real-time limit on the process"""
     tagid = "%s_%s_%s_%d" % (ctx.pid, re.sub(r"\W", "_", run), mode, os.getpid())
@@ -40,6 +40,8 @@ def go_run(ctx, moddir, pkg, files, run, cases, mode, real_timeout, extra_files=
     repl = {os.path.join(pkgdir, name): os.path.join(lib.INPKG, src) for name, src in files.items()}
     for name, path in (extra_files or {}).items():
         repl[os.path.join(pkgdir, name)] = path
+    for dst, src in (extra_overlay or {}).items():      # files of other packages (export shims), relative to the repo root
+        repl[os.path.join(REPO, dst)] = os.path.join(lib.INPKG, src)
     ov = os.path.join(lib.BUILD, "ov_%s.json" % tagid)
     cpath = os.path.join(lib.BUILD, "cases_%s.json" % tagid)
     opath = os.path.join(lib.BUILD, "out_%s.json" % tagid)
@@ -79,6 +81,8 @@ class Spec:
 
     def __init__(self):
         self.life = {}      # key -> [age_ns, used, validated, times seen]
+        self.open = {}      # connection id -> key: tunnels that are open (connection lane)
+        self.recognised = None   # connection lane: must the last connect have been recognised
 
     def apply(self, o):
         """returns what the operation must cause besides: (announcements, lifetime updates, validated registrations expired)"""
@@ -102,6 +106,17 @@ class Spec:
             if k in self.life:
                 self.life[k][1] = True
                 upd.append(k)
+        elif op == "connect":
+            # a connection arrives for k: it is carried iff k is alive and validated at that moment, and from
+            # that moment on k "has carried a connection" - however long the tunnel then stays open
+            k = (o["s"], o["t"], o["p"])
+            self.recognised = k in self.life and self.life[k][2]
+            if self.recognised:
+                self.life[k][1] = True
+                upd.append(k)
+                self.open[o["c"]] = k
+        elif op == "close":
+            self.open.pop(o["c"], None)        # the end of a tunnel changes nothing for the registration
         elif op == "advance":
             for v in self.life.values():
                 v[0] += adv_ns(o)
@@ -139,12 +154,34 @@ def rel_str(rels):
     return "+".join(sorted(rels)) or "unrelated"
 
 
-def oracle(ctx, case, res):
-    """evaluate the property on the implementation's observables; returns True if clean"""
+def oracle(ctx, case, res, defer_further=False):
+    """evaluate the property on the implementation's observables; returns True if clean.
+    defer_further (connection lane): a difference in the further observables (regCount, detector notifications, gauges)
+    does not end the history; it is reported after the history's lifetime verdicts (tracked / matched / residue), so that
+    the first failure of a history is stated in the property's own words whenever there is one"""
     spec = Spec()
     hist_keys = {(o["s"], o["t"], o["p"]) for o in case["ops"] if "s" in o}
     alphabet = {tuple(k) for k in case["keys"]}
     clean = True
+    later = []
+
+    def further(key, what, c):
+        if defer_further:
+            later.append((key, what, c))
+            return True
+        ctx.fail(key, what, c)
+        return False
+
+    def done(verdict):
+        for key, what, c in later:
+            ctx.fail(key, what, c)
+        return verdict and not later
+
+    def relcls(k, hk):
+        r = relation_class(k, hk)
+        if k in spec.open.values():
+            r = r | {"tunnel-open"}           # the registration's tunnel is open at this moment (connection lane)
+        return r
     for i, (o, ob) in enumerate(zip(case["ops"], res["obs"])):
         if o["op"] == "sweep":
             for a, u, _, _ in spec.life.values():
@@ -155,19 +192,33 @@ def oracle(ctx, case, res):
         if ob["panic"]:
             ctx.fail("panic:%s" % o["op"], "operation %s panicked on the real table: %s" % (o["op"], ob["panic"][:200]),
                      {"case": case, "at": i})
-            return False
+            return done(False)
+        if o["op"] == "connect" and ob.get("recognised") is not None and ob["recognised"] != spec.recognised:
+            k = (o["s"], o["t"], o["p"])
+            if ob["recognised"]:
+                ctx.fail("conn:expired-still-recognised" if k not in spec.life else "conn:recognised-before-validation",
+                         "the connection handler relayed connection #%d for registration (secret %d, transport %s, phantom %d) "
+                         "(operation #%d) although the history says that registration is %s" % (
+                             o["c"], k[0], TRS[k[1]], k[2], i, "expired or was never registered" if k not in spec.life else "not validated"),
+                         {"case": case, "at": i, "key": k})
+            else:
+                ctx.fail("conn:live-registration-not-recognised",
+                         "the connection handler did not relay connection #%d for the live, validated registration (secret %d, "
+                         "transport %s, phantom %d) (operation #%d)" % (o["c"], k[0], TRS[k[1]], k[2], i),
+                         {"case": case, "at": i, "key": k})
+            return done(False)
         want = spec.tracked() & alphabet
         got = {tuple(t[:3]) for t in ob["tracked"]}
         after_sweep = o["op"] == "sweep"
         for k in sorted(got - want):
             what = "kept-past-lifetime" if (after_sweep or k in hist_keys) else "tracked-never-registered"
-            ctx.fail("%s:%s" % (what, rel_str(relation_class(k, hist_keys))),
+            ctx.fail("%s:%s" % (what, rel_str(relcls(k, hist_keys))),
                      "registration (secret %d, transport %s, phantom %d) is still tracked after operation #%d (%s) although "
                      "the history says it is expired or was never registered" % (k[0], TRS[k[1]], k[2], i, o["op"]),
                      {"case": case, "at": i, "key": k, "observed_tracked": sorted(got), "expected_tracked": sorted(want)})
             clean = False
         for k in sorted(want - got):
-            ctx.fail("expired-early:%s" % rel_str(relation_class(k, hist_keys)),
+            ctx.fail("expired-early:%s" % rel_str(relcls(k, hist_keys)),
                      "registration (secret %d, transport %s, phantom %d) is no longer tracked after operation #%d (%s) although it "
                      "is inside its lifetime" % (k[0], TRS[k[1]], k[2], i, o["op"]),
                      {"case": case, "at": i, "key": k, "observed_tracked": sorted(got), "expected_tracked": sorted(want)})
@@ -176,13 +227,13 @@ def oracle(ctx, case, res):
         wantm = spec.matched() & alphabet
         for k in sorted(gotm - wantm):
             what = "expired-still-matched" if k not in spec.tracked() else "matched-before-validation"
-            ctx.fail("%s:%s" % (what, rel_str(relation_class(k, hist_keys))),
+            ctx.fail("%s:%s" % (what, rel_str(relcls(k, hist_keys))),
                      "a lookup on phantom %d returns registration (secret %d, transport %s) after operation #%d (%s); the history "
                      "says it must not match" % (k[2], k[0], TRS[k[1]], i, o["op"]),
                      {"case": case, "at": i, "key": k, "observed_matched": sorted(gotm), "expected_matched": sorted(wantm)})
             clean = False
         for k in sorted(wantm - gotm):
-            ctx.fail("valid-not-matched:%s" % rel_str(relation_class(k, hist_keys)),
+            ctx.fail("valid-not-matched:%s" % rel_str(relcls(k, hist_keys)),
                      "a lookup on phantom %d does not return the live, validated registration (secret %d, transport %s) after "
                      "operation #%d (%s)" % (k[2], k[0], TRS[k[1]], i, o["op"]),
                      {"case": case, "at": i, "key": k, "observed_matched": sorted(gotm), "expected_matched": sorted(wantm)})
@@ -191,20 +242,17 @@ def oracle(ctx, case, res):
         for t in ob["tracked"]:
             k = tuple(t[:3])
             if k in spec.life and t[4] != spec.life[k][3]:
-                ctx.fail("regcount-wrong:%s" % o["op"], "registration (secret %d, transport %s, phantom %d) has regCount %d after operation "
-                         "#%d (%s); it was seen %d times in its current life" % (k[0], TRS[k[1]], k[2], t[4], i, o["op"], spec.life[k][3]),
-                         {"case": case, "at": i, "key": k})
-                clean = False
+                clean &= further("regcount-wrong:%s" % o["op"], "registration (secret %d, transport %s, phantom %d) has regCount %d after operation "
+                                 "#%d (%s); it was seen %d times in its current life" % (k[0], TRS[k[1]], k[2], t[4], i, o["op"], spec.life[k][3]),
+                                 {"case": case, "at": i, "key": k})
         if [tuple(x) for x in ob["new_notif"]] != new or [tuple(x) for x in ob["upd_notif"]] != upd:
             which = "new" if [tuple(x) for x in ob["new_notif"]] != new else "update"
-            ctx.fail("notification-wrong:%s/%s" % (which, o["op"]),
-                     "operation #%d (%s) sent detector notifications new=%s update=%s; the history prescribes new=%s update=%s"
-                     % (i, o["op"], ob["new_notif"], ob["upd_notif"], new, upd), {"case": case, "at": i})
-            clean = False
+            clean &= further("notification-wrong:%s/%s" % (which, o["op"]),
+                             "operation #%d (%s) sent detector notifications new=%s update=%s; the history prescribes new=%s update=%s"
+                             % (i, o["op"], ob["new_notif"], ob["upd_notif"], new, upd), {"case": case, "at": i})
         if ob["exp_valid"] != expv or ob["stat_delta"] != expv:
-            ctx.fail("expiry-stat-wrong", "operation #%d (%s) lowered the active-registration gauges by %d (manager) / %d (Stat()); %d "
-                     "validated registrations expired" % (i, o["op"], ob["exp_valid"], ob["stat_delta"], expv), {"case": case, "at": i})
-            clean = False
+            clean &= further("expiry-stat-wrong", "operation #%d (%s) lowered the active-registration gauges by %d (manager) / %d (Stat()); %d "
+                             "validated registrations expired" % (i, o["op"], ob["exp_valid"], ob["stat_delta"], expv), {"case": case, "at": i})
         if ob["unknown_id"]:
             ctx.fail("matched-unknown-identifier", "a lookup returned an identifier that belongs to no registration of the history",
                      {"case": case, "at": i})
@@ -214,7 +262,7 @@ def oracle(ctx, case, res):
             n = len(spec.tracked())
             nph = len({k[2] for k in spec.tracked()})
             if ob["total"] != n or ob["ntimeouts"] != n or ob["nphantoms"] != nph:
-                cls = rel_str(set().union(*[relation_class(k, hist_keys) for k in hist_keys]))
+                cls = rel_str(set().union(*[relcls(k, hist_keys) for k in hist_keys]))
                 ctx.fail("residue:%s" % cls,
                          "after operation #%d (%s) the table holds %d registrations, %d timeout records and %d phantom maps; "
                          "the history has %d live registrations on %d phantoms" % (i, o["op"], ob["total"], ob["ntimeouts"],
@@ -227,8 +275,8 @@ def oracle(ctx, case, res):
                          {"case": case, "at": i})
                 clean = False
         if not clean:
-            return False
-    return True
+            return done(False)
+    return done(True)
 
 
 # ----------------------------------------------------------------------------- generators
@@ -398,6 +446,7 @@ def gen_cases(ctx):
         if isinstance(c, dict) and "case" in c:
             cases.append(c["case"])
     cases += rp.get("cases", [])
+    cases = [c for c in cases if c.get("lane") != "conn"]        # handler histories are replayed by the connection lane
     if ctx.replay is not None:
         # replay mode: exactly the recorded histories, on the implementation and on the model
         return cases, len(cases), len(cases)
@@ -685,6 +734,229 @@ def run_sweeper(ctx):
     ctx.cov["sweeper_loop"] = "executed: `%s...` cut from main.go, %d clock scripts" % (stmt[:40].replace("\n", " "), len(scripts))
 
 
+# ----------------------------------------------------------------------------- the connection lane
+# `connect` events that come from the real handleNewTCPConn (cmd/application/conns.go): a TCP peer with the real
+# client transport's first flight, a covert echo server, tunnels that stay OPEN across clock steps and sweeps.
+CONN_FILES = {"zz_verif_c08_conn_driver_test.go": "c08/conn_driver_test.go"}
+CONN_EXTRA = {"pkg/station/lib/zz_verif_c08_export.go": "c08/lib_export_c08.go"}
+CONN_HEADER = ("From CJ Require Import Common.Base C08.Model C08.ModelConn C08.Run C08.RunConn.\n"
+               "Definition K (s : N) (t : tr) (p : N) : regkey := Build_regkey s t p.\n"
+               "Definition O := Build_obs.\nDefinition CO := Build_cobs.\n")
+CONN_MARGIN = 20 * NS       # ages at a sweep stay this far from a limit: the lane runs on the real clock
+
+
+def CN(c, s, t, p):
+    return {"op": "connect", "c": c, "s": s, "t": t, "p": p}
+
+
+def CL(c):
+    return {"op": "close", "c": c}
+
+
+def conn_case(ops, extra_keys=()):
+    c = mk_case(ops, extra_keys)
+    c["lane"] = "conn"
+    return c
+
+
+def conn_corpus():
+    cs = []
+    for t in (0, 2):        # min, prefix
+        k = (0, t, 0)
+        # the first tunnel stays open while the registration passes the 10-minute unused lifetime; sweeps; a reconnect;
+        # the tunnels close; it is removed only once it is older than 6 hours
+        cs.append(conn_case([V(*k), ADV(60), CN(1, *k), ADV(600), SW, L(0), CN(2, *k), ADV(20000), SW, CL(1), SW, CL(2),
+                             ADV(900), SW, C(0), ADV(100), SW, C(0), CN(3, *k)]))
+        # a short tunnel (closed long before the registration is 10 minutes old)
+        cs.append(conn_case([V(*k), CN(1, *k), CL(1), ADV(660), SW, C(0), ADV(20900), SW, C(0), ADV(100), SW, C(0)]))
+    k, k2, k6 = (1, 0, 0), (2, 0, 0), (1, 0, 1)
+    # tracked but not validated: the connection is not recognised, nothing is marked
+    cs.append(conn_case([T(*k), CN(1, *k), ADV(660), SW, C(0)]))
+    # expired but not yet swept: still matched, the connection saves it (it has carried a connection, younger than 6 h)
+    cs.append(conn_case([V(*k), ADV(700), CN(1, *k), SW, L(0), ADV(20000), SW, CL(1), L(0)]))
+    # expired and swept: stops matching connections
+    cs.append(conn_case([V(*k), ADV(700), SW, CN(1, *k), C(0), V(*k), CN(2, *k), ADV(700), SW, C(0)]))
+    # two registrations on one phantom: the connection marks its own only
+    cs.append(conn_case([V(*k), V(*k2), CN(1, *k), ADV(660), SW, L(0), CL(1), ADV(660), SW, L(0)]))
+    # one secret on its v4 and its v6 phantom
+    cs.append(conn_case([V(*k), V(*k6), CN(1, *k6), ADV(660), SW, L(0), L(1), CL(1)]))
+    # the 6 hours count from the registration, not from the connection nor from the end of the tunnel
+    cs.append(conn_case([V(*k), ADV(500), CN(1, *k), ADV(20500), SW, C(0), CL(1), ADV(660), SW, C(0), CN(2, *k)]))
+    # a connection for a registration nobody made
+    cs.append(conn_case([CN(1, *k), V(*k2), CN(2, *k), CN(3, *k2), ADV(660), SW, C(0), CL(3)]))
+    # duplicate registrations while the tunnel is open do not refresh the age
+    cs.append(conn_case([V(*k), CN(1, *k), ADV(21000), T(*k), VS(*k), ADV(660), SW, C(0), CL(1)]))
+    return cs
+
+
+def conn_margin_ok(spec):
+    return all(abs(a - (SIX_H if u else TEN_MIN)) >= CONN_MARGIN for a, u, _, _ in spec.life.values())
+
+
+def conn_random(rng, nops):
+    secrets = rng.sample([0, 1, 2, 3], rng.choice([1, 2, 3]))
+    trs = rng.sample([0, 2], rng.choice([1, 2]))
+    phs = rng.sample([0, 1, 2], rng.choice([1, 2]))
+    keys = [(s, t, p) for s in secrets for t in trs for p in phs]
+    spec, ops, nc = Spec(), [], 0
+    for _ in range(nops):
+        x = rng.random()
+        live = sorted(spec.tracked())
+        if x < 0.22:
+            o = rng.choice([V, V, V, T, VS])(*rng.choice(keys))
+        elif x < 0.42:
+            if not live and rng.random() < 0.8:       # an unrecognised peer costs its waiting time: keep them few
+                o = V(*rng.choice(keys))
+            else:
+                nc += 1
+                k = rng.choice(live) if live and rng.random() < 0.85 else rng.choice(keys)
+                o = CN(nc, *k)
+        elif x < 0.52:
+            if not spec.open:
+                continue
+            o = CL(rng.choice(sorted(spec.open)))
+        elif x < 0.76:
+            d = rng.choice([60, 300, 570, 630, 660, 3600, 20000, 21000])
+            if live and rng.random() < 0.6:        # bring one live registration just past / just short of its limit
+                k = rng.choice(live)
+                a, u, _, _ = spec.life[k]
+                tgt = (SIX_H if u else TEN_MIN) + rng.choice([-60, -30, 30, 60, 600]) * NS
+                if tgt > a:
+                    d = (tgt - a) // NS
+            o = ADV(d)
+        elif x < 0.94:
+            if not conn_margin_ok(spec):
+                spec.apply(ADV(45))
+                ops.append(ADV(45))
+                if not conn_margin_ok(spec):
+                    continue
+            o = SW
+        else:
+            o = rng.choice([L, C])(rng.choice(phs))
+        spec.apply(o)
+        ops.append(o)
+    c = conn_case(ops, extra_keys=keys[:12])
+    c["phantoms"] = sorted(set(c["phantoms"]) | set(phs))
+    return c
+
+
+def conn_cases(ctx):
+    rp = ctx.replay
+    if rp is not None:
+        out = []
+        for f in rp.get("failures", []) + rp.get("theorem_or_correspondence", []):
+            c = f.get("case") or {}
+            if isinstance(c, dict) and isinstance(c.get("case"), dict) and c["case"].get("lane") == "conn":
+                out.append(c["case"])
+        return out + [c for c in rp.get("cases", []) if c.get("lane") == "conn"]
+    cs = conn_corpus()
+    for _ in range(40 if ctx.tier == "quick" else 400):
+        cs.append(conn_random(ctx.rng, ctx.rng.choice([6, 10, 16, 24])))
+    return cs
+
+
+def ghev(o):
+    if o["op"] == "connect":
+        return "HConnect %s %s" % (gN(o["c"]), gkey((o["s"], o["t"], o["p"])))
+    if o["op"] == "close":
+        return "HClose %s" % gN(o["c"])
+    return "HReg (%s)" % gop(o)
+
+
+def gccase(case, res):
+    hist = glist(list(zip(case["ops"], res["obs"])),
+                 lambda x: "(%s, CO %s %s %s %s)" % (ghev(x[0]), gobs(x[1]), gbool(x[1]["recognised"]),
+                                                     glist(x[1]["used"], gkey), gN(x[1]["open"])))
+    return "(Build_ccase %s %s %s %s %s)" % (glist(case["keys"], gkey), glist(case["phantoms"], gN),
+                                             gN(res["timeout_unused_ns"]), gN(res["timeout_active_ns"]), hist)
+
+
+def conn_classify(ctx, case):
+    """which classes of handler histories the case contains (generator self-test)"""
+    spec, h = Spec(), ctx.cov["histogram"]
+
+    def hit(kd):
+        h[kd] = h.get(kd, 0) + 1
+    had_open_sweep = set()
+    for o in case["ops"]:
+        if o["op"] == "sweep":
+            for k in set(spec.open.values()):
+                a, u, _, _ = spec.life.get(k, (0, False, False, 0))
+                if k in spec.life and a > TEN_MIN and a <= SIX_H:
+                    hit("conn/sweep-under-open-tunnel-past-10min")
+                    had_open_sweep.add(k)
+            before = set(spec.life)
+            spec.apply(o)
+            for k in before - set(spec.life):
+                if k in had_open_sweep:
+                    hit("conn/removed-after-6h-once-used")
+            continue
+        spec.apply(o)
+        if o["op"] == "connect":
+            k = (o["s"], o["t"], o["p"])
+            hit("conn/recognised" if spec.recognised else "conn/unrecognised")
+            if spec.recognised and k in had_open_sweep:
+                hit("conn/reconnect-after-sweep")
+            if spec.recognised and spec.life[k][0] > TEN_MIN and list(spec.open.values()).count(k) == 1:
+                hit("conn/matched-while-expired-unswept")
+        elif o["op"] == "close":
+            hit("conn/close")
+
+
+def run_conn(ctx):
+    cases = conn_cases(ctx)
+    if not cases:
+        return
+    rc, out, res = go_run(ctx, "cmd/application", ".", CONN_FILES, "^TestVerifC08Conn$", cases, "shift", 900,
+                          extra_overlay=CONN_EXTRA)
+    if res is None or len(res) != len(cases):
+        ctx.broken("driver", "the connection-lane driver (real handleNewTCPConn) did not produce results (rc=%s): %s" % (rc, out[-1500:]))
+        return
+    terms, kept = [], []
+    for case, r in zip(cases, res):
+        nconn = sum(1 for o in case["ops"] if o["op"] == "connect")
+        nsweep = sum(1 for o in case["ops"] if o["op"] == "sweep")
+        ctx.count(("conn", case["ops"]), nontrivial=bool(nconn and nsweep), kind="conn/history")
+        for o in case["ops"]:
+            if o["op"] in ("connect", "close"):
+                ctx.cov["histogram"]["op/" + o["op"]] = ctx.cov["histogram"].get("op/" + o["op"], 0) + 1
+        if r.get("err"):
+            ctx.broken("driver", "connection-lane driver: %s" % r["err"][:400], {"case": case})
+            continue
+        notes = [ob["note"] for ob in r["obs"] if ob.get("note")]
+        if notes:
+            ctx.broken("driver", "connection-lane driver trouble (not a verdict about conjure): %s" % notes[0][:300], {"case": case})
+            continue
+        if r["id_collision"]:
+            ctx.broken("assumption", "transport identifiers of the alphabet are not pairwise distinct", {"case": case})
+            continue
+        if r["slow"] or len(r["obs"]) != len(case["ops"]):
+            ctx.cov["histogram"]["conn/skipped-slow"] = ctx.cov["histogram"].get("conn/skipped-slow", 0) + 1
+            continue
+        if r["timeout_unused_ns"] != TEN_MIN or r["timeout_active_ns"] != SIX_H:
+            ctx.fail("lifetime-constant", "the table is created with lifetimes unused=%d ns active=%d ns; the property says 10 min / 6 h"
+                     % (r["timeout_unused_ns"], r["timeout_active_ns"]), {"case": case})
+        conn_classify(ctx, case)
+        oracle(ctx, case, r, defer_further=True)
+        terms.append(gccase(case, r))
+        kept.append((case, r))
+    if ctx.cov["histogram"].get("conn/skipped-slow", 0) > max(2, len(cases) // 10):
+        ctx.broken("driver", "more than 10% of the connection-lane cases could not be run within the timing margin")
+    if kept:
+        ctx.sample({"lane": "conn", "ops": kept[0][0]["ops"][:10], "last_observation": kept[0][1]["obs"][-1]})
+    if ctx.replay is None:
+        ctx.require_kinds(["conn/sweep-under-open-tunnel-past-10min", "conn/removed-after-6h-once-used", "conn/recognised",
+                           "conn/unrecognised", "conn/reconnect-after-sweep", "conn/matched-while-expired-unswept", "conn/close"])
+    mm = ctx.coq_mismatches("conn", CONN_HEADER, terms, "chk_conn", shard=max(40, (len(terms) + 3) // 4), need_vo=["C08/RunConn.vo"])
+    if mm:
+        ctx.cov["mismatches"] += len(mm)
+        case, r = kept[mm[0]]
+        where = ctx.coq_show("cwhere", CONN_HEADER, "where_cbad %s" % gccase(case, r))
+        ctx.broken("correspondence", "the real connection handler + RegisteredDecoys disagree with the handler-level model C08.ModelConn.hstep "
+                   "and/or its specification hgstep on %d handler histories; first: %d events, first differing event (model, "
+                   "specification): %s" % (len(mm), len(case["ops"]), where[-200:]), {"case": case, "observed": r["obs"][-1]})
+
+
 # ----------------------------------------------------------------------------- run
 def run(ctx):
     ctx.assumptions += [
@@ -713,8 +985,13 @@ def run(ctx):
     rc, out = ctx.coq_make(["C08/Examples.vo", "C08/Legacy.vo"])
     if rc != 0:
         ctx.broken("examples", "non-vacuity examples / legacy witness no longer check: " + out[-600:])
+    only = os.environ.get("VERIF_C08_ONLY")      # development aid: run a single lane (never set by the registered commands)
+    if only == "conn":
+        run_conn(ctx)
+        return
     wiring(ctx)
     run_sweeper(ctx)
+    run_conn(ctx)
     cases, n_fixed, n_exh = gen_cases(ctx)
     # primary run: the runtime's fake clock, moved by the driver - every age is exact to the nanosecond
     rc, out, res = go_run(ctx, ".", GO_PKG, GO_FILES, "^TestVerifC08Registry$", cases, "fake", 900)
